@@ -115,6 +115,13 @@ def check(run):
     for i, pr in enumerate(plist):
         for st in (STORAGES if thorough else [STORAGES[i % len(STORAGES)]]):
             stim.append({"id": len(stim) + 1, "storage": st, "top": pr["top"], "cbs": pr["cbs"]})
+    # the same programs re-polling with the SAME waker object (Waker::will_wake is true) where they poll more than once
+    rp = lambda ops: ["repoll" if o == "poll" else o for o in ops]
+    for st in list(stim):
+        if st["top"].count("poll") + sum(c["ops"].count("poll") for c in st["cbs"]) >= 2:
+            stim.append({"id": len(stim) + 1, "storage": st["storage"], "top": rp(st["top"]),
+                         "cbs": [{"kind": c["kind"], "ops": rp(c["ops"])} for c in st["cbs"]]})
+    run.cov["same_waker_repoll_variants"] = sum(1 for s in stim if "repoll" in s["top"] or any("repoll" in c["ops"] for c in s["cbs"]))
     recs = run_local(wd, "tlc", stim)
     ends = [e for e in recs if e["ev"] == "end"]
     run.cov["replayed_runs"] = len(ends)
@@ -129,10 +136,10 @@ def check(run):
     rng = random.Random(run.seed)
     rnd = []
     for i in range(3000 if thorough else 500):
-        top = [rng.choice(["poll", "poll", "send", "sdrop", "is_ready", "into_value", "drop"]) for _ in range(rng.randint(1, 5))]
+        top = [rng.choice(["poll", "poll", "repoll", "send", "sdrop", "is_ready", "into_value", "drop"]) for _ in range(rng.randint(1, 5))]
         cbs = []
         for _ in range(rng.randint(0, 6)):
-            ops = [rng.choice(["send", "sdrop", "poll", "into_value", "drop", "is_ready"]) for _ in range(rng.choice([0, 0, 1, 1, 2, 3]))]
+            ops = [rng.choice(["send", "sdrop", "poll", "repoll", "into_value", "drop", "is_ready"]) for _ in range(rng.choice([0, 0, 1, 1, 2, 3]))]
             cbs.append({"kind": rng.choice(["clone", "wake", "drop"]), "ops": ops})
         rnd.append({"id": 500000 + i, "storage": rng.choice(STORAGES), "top": top, "cbs": cbs})
     recs = run_local(wd, "rand", rnd)
